@@ -1,6 +1,22 @@
 package tree
 
-import "strings"
+import (
+	"strconv"
+	"strings"
+)
+
+// PathKey returns the map key of a path. Every element is written as <length><KeysIndexSep><element>, so two different
+// paths never get the same key, whatever characters their elements (list key values) contain, and the key of a
+// path prefix is a prefix of the key of the path.
+func PathKey(path []string) string {
+	sb := strings.Builder{}
+	for _, e := range path {
+		sb.WriteString(strconv.Itoa(len(e)))
+		sb.WriteString(KeysIndexSep)
+		sb.WriteString(e)
+	}
+	return sb.String()
+}
 
 type PathSet struct {
 	index map[string]struct{}
@@ -15,7 +31,7 @@ func NewPathSet() *PathSet {
 }
 
 func (p *PathSet) AddPath(path []string) {
-	k := strings.Join(path, KeysIndexSep)
+	k := PathKey(path)
 	if _, exists := p.index[k]; !exists {
 		p.paths = append(p.paths, path)
 		p.index[k] = struct{}{}
